@@ -362,7 +362,10 @@ impl TryFrom<&crate::file::metadata::thrift::PageHeader> for PageMetadata {
     ) -> std::result::Result<Self, Self::Error> {
         match value.r#type {
             PageType::DATA_PAGE => {
-                let header = value.data_page_header.as_ref().unwrap();
+                let header = value
+                    .data_page_header
+                    .as_ref()
+                    .ok_or_else(|| ParquetError::General("Missing data page header".to_string()))?;
                 Ok(PageMetadata {
                     num_rows: None,
                     num_levels: Some(header.num_values as _),
@@ -375,7 +378,9 @@ impl TryFrom<&crate::file::metadata::thrift::PageHeader> for PageMetadata {
                 is_dict: true,
             }),
             PageType::DATA_PAGE_V2 => {
-                let header = value.data_page_header_v2.as_ref().unwrap();
+                let header = value.data_page_header_v2.as_ref().ok_or_else(|| {
+                    ParquetError::General("Missing data page v2 header".to_string())
+                })?;
                 Ok(PageMetadata {
                     num_rows: Some(header.num_rows as _),
                     num_levels: Some(header.num_values as _),
